@@ -532,3 +532,9 @@ package proxy
 //@ func (*ReverseProxy).ServeHTTP
 //@   may_panic
 //@   requires rp != nil && rp.dialer != nil && rw != nil && outreq != nil && outreq.URL != nil && outreq.Header != nil
+
+//@ unit helper_frames frames=on props=C11 nilchecks=on filter=`proxy\.createRespHeaderUpdateFn$`
+//@ // helpers that other units call through an empty contract ("frame-empty, promises nothing"): here each is verified
+//@ // against exactly that contract (safety and an empty frame), so that assumption is a proved fact
+//@ use @verif/specs/stdlib.spec:stdlib
+//@ func createRespHeaderUpdateFn
